@@ -7,6 +7,8 @@
   value tokens (no spaces; hex digits are lower case, so upper-case letters and punctuation delimit):
     U undefined  N null  T F booleans  D<16 hex> number  S<units>. string  X function
     BD<16 hex> / BS<units>. / BT / BF  Number / String / Boolean objects
+    WD<16 hex><m><m> / WS<units>.<m><m>  Number / String object with scripted valueOf, toString:
+                                        <m> = i (inherited) | n (own, not callable) | r<primitive> (own function)
     A<values>] array   O(<units>.<value>)*} object   J<value> object whose toJSON returns <value>
     R<n>. reference to the n-th enclosing array/object (a cycle)
   replacer: -  |  f<id> (function family, see `replFn`)  |  L<items>] with items S.. D.. BS.. BD.. Z(other)
@@ -39,9 +41,31 @@ def readUnits (cs : List Char) : Option (Str × List Char) :=
 def readF64 (cs : List Char) : Option (FV × List Char) :=
   if cs.length < 16 then none else (f64? (String.ofList (cs.take 16))).map fun x => (x, cs.drop 16)
 
+def readPrim (cs : List Char) : Option (Prim × List Char) :=
+  match cs with
+  | 'U' :: r => some (.undef, r)
+  | 'N' :: r => some (.null, r)
+  | 'T' :: r => some (.bool true, r)
+  | 'F' :: r => some (.bool false, r)
+  | 'D' :: r => (readF64 r).map fun p => (.num p.1, p.2)
+  | 'S' :: r => (readUnits r).map fun p => (.str p.1, p.2)
+  | _ => none
+
+/-- i = inherited, n = an own non-callable property, r<prim> = an own function returning <prim> -/
+def readMeth (cs : List Char) : Option (Meth × List Char) :=
+  match cs with
+  | 'i' :: r => some (.inherited, r)
+  | 'n' :: r => some (.notCallable, r)
+  | 'r' :: r => (readPrim r).map fun p => (.ret p.1, p.2)
+  | _ => none
+
 mutual
 partial def readSV (cs : List Char) : Option (SV × List Char) :=
   match cs with
+  | 'W' :: 'D' :: r =>
+    (readF64 r).bind fun x => (readMeth x.2).bind fun vo => (readMeth vo.2).map fun ts => (.wrapNum x.1 vo.1 ts.1, ts.2)
+  | 'W' :: 'S' :: r =>
+    (readUnits r).bind fun x => (readMeth x.2).bind fun vo => (readMeth vo.2).map fun ts => (.wrapStr x.1 vo.1 ts.1, ts.2)
   | 'U' :: r => some (.undef, r)
   | 'N' :: r => some (.null, r)
   | 'T' :: r => some (.bool true, r)
@@ -168,7 +192,7 @@ def handleRevive (text : Str) (f : Reviver) : String :=
 
 
 def isObjectish : SV → Bool
-  | .null | .boxNum _ | .boxStr _ | .boxBool _ | .arr _ | .obj _ | .tojson _ | .back _ => true
+  | .null | .boxNum _ | .boxStr _ | .boxBool _ | .arr _ | .obj _ | .tojson _ | .back _ | .wrapNum .. | .wrapStr .. => true
   | _ => false
 
 /-- the replacer function family (the harness holds the same table as JavaScript source) -/
@@ -201,15 +225,12 @@ def replacer? (t : String) : Option Replacer :=
   | 'G' :: r => (readItems r).map Replacer.list      -- the same list handed over as a bridged Go slice
   | _ => none
 
-def space? (t : String) : Option Space :=
+/-- the `space` argument as a value (`none` = not passed; Z = `true`) -/
+def space? (t : String) : Option (Option SV) :=
   match t.toList with
-  | ['-'] => some .absent
-  | ['Z'] => some .other
-  | 'S' :: r => match readUnits r with | some (s, []) => some (.str s) | _ => none
-  | 'B' :: 'S' :: r => match readUnits r with | some (s, []) => some (.str s) | _ => none
-  | 'D' :: r => match readF64 r with | some (x, []) => some (.num x) | _ => none
-  | 'B' :: 'D' :: r => match readF64 r with | some (x, []) => some (.num x) | _ => none
-  | _ => none
+  | ['-'] => some none
+  | ['Z'] => some (some (.bool true))
+  | _ => (sv? t).map some
 
 def outTok : Out → String
   | .text s => "s:" ++ unitsOut s
@@ -218,6 +239,9 @@ def outTok : Out → String
   | .oof => "oof"
 
 def numStr (x : FV) : Str := C06.Spec.toStringNum x
+
+/-- number <-> string of primitives: the C06 / C05 models on both sides -/
+def cv : Conv := { numStr := numStr, strNum := fun s => OttoVerif.PN.parseNumber (Str.bytesOfUnits s) }
 
 def lib : C06.Lib := C06.Spec.exactLib
 
@@ -246,7 +270,7 @@ end
 def selfCheck (fuel : Nat) (v : SV) (r : Replacer) (sp : Space) : String :=
   let gap := C11.gapOf sp
   if !gap.all isWS then "" else
-  match walk (mctxOf numStr r) fuel 0 [] v with
+  match walk (mctxOf cv r) fuel 0 [] v with
   | .val g =>
     let g' := sortMaps g
     match Spec.jsonParse (marshal lib gap 0 g') with
@@ -254,11 +278,13 @@ def selfCheck (fuel : Nat) (v : SV) (r : Replacer) (sp : Space) : String :=
     | some t => if jvTok t == jvTok (expectOf g') then "" else "!reread"
   | _ => ""
 
-def handleStr (vt : String) (v : SV) (r : Replacer) (sp : Space) : String :=
+def handleStr (vt : String) (v : SV) (r : Replacer) (spArg : Option SV) : String :=
   let fuel := fuelOf vt
-  let m := C11.jsonStringify lib numStr fuel v r sp
-  let s := Spec.jsonStringify numStr fuel v r sp
-  let tree := Spec.serial (Spec.sctxOf numStr r) fuel 0 [] v
+  let msp := C11.spaceOf cv spArg
+  let sp := Spec.spaceOf cv spArg
+  let m := C11.jsonStringify lib cv fuel v r msp
+  let s := Spec.jsonStringify cv fuel v r sp
+  let tree := Spec.serial (Spec.sctxOf cv r) fuel 0 [] v
   let treeDev : List String := match tree with
     | .val t =>
       (if jvAny no1 (fun m => !sortedKeys m) t then ["str_key_order"] else []) ++
@@ -266,7 +292,7 @@ def handleStr (vt : String) (v : SV) (r : Replacer) (sp : Space) : String :=
       (if jvAny (fun s => goStr s != s) no1 t then ["str_lone_surrogate"] else [])
     | _ => []
   let dev := treeDev ++ (if gapLone sp && !treeDev.contains "str_lone_surrogate" then ["str_lone_surrogate"] else [])
-  reply (outTok m ++ selfCheck fuel v r sp) (outTok s) (joinDev dev)
+  reply (outTok m ++ selfCheck fuel v r msp) (outTok s) (joinDev dev)
 
 /-! ### runtimes whose Object.prototype holds an accessor / a read-only property named "a" and ""
 
